@@ -57,7 +57,8 @@ def cases(tier, seed):
         via = "api" if h % 5 else "cload"
         yield "ig.records", {"table": table, "recs": recs, "one_based": one_based, "tril": tril, "valued": False,
                              "via": via, "chunk": rng.choice([1, 2, 3, 1000]) if not many else rng.choice([1, 2]),
-                             "header": h % 10 == 0, **({"max_merge": rng.choice([2, 3, 4])} if many else {})}
+                             "header": h % 10 == 0, **({"max_merge": rng.choice([2, 3, 4])} if many else {}),
+                             "labels": ["default", "offset", "perm"][h % 3], "pos_dtype": ["int64", "int32"][h % 2]}
     # single records on every interesting position (both anchors), every option: the boundary cases of the property
     for table in tables[:6] if tier == "quick" else tables:
         nch = 1 + max(t[0] for t in table)
